@@ -29,6 +29,7 @@ import vlib
 from vlib import Hit
 
 LEVEL = 'proof'
+BORDER_KEY = 'C19:circularize:const:border-zeroed'
 
 # ---------------------------------------------------------------------------
 # The oracles: the property's clauses evaluated on the implementation.  This
@@ -285,7 +286,7 @@ def cl_isotropic(shape, origin, dr, prof):
             else:
                 rr = np.linspace(0, rin, 40001)
                 ref = trapz(profile(prof, rr) * 4 * np.pi * rr**2, rr)
-            t = tol[dim] + 3e-3                     # + quadrature in r (step up to 2 px)
+            t = tol[dim] + 3e-3 * max(1.0, dr)**2   # + quadrature in r and angular undersampling (step up to 2 px)
             e = abs(got - ref) / abs(ref)
             meas['total:' + kind] = e / t
             if not e <= t:
@@ -346,31 +347,52 @@ def cl_topes(radial, intensity, c, per_energy, hv, Vrep, zoom, smooth):
 
 
 def cl_circ_const(shape, seed, c, ref):
-    """constant correction: the image comes back unchanged, and it is read at (i, j) itself"""
+    """constant correction: the image comes back unchanged, and it is read at (i, j) itself.
+    Sub-clause border-zeroed: the only change is that pixels of the outermost rows/columns became exactly 0
+    while the sampling positions are the identity to 1e-9 (round-off pushes them ~1e-15 outside the image,
+    where map_coordinates(mode='constant') returns 0)."""
     fails = []
-    IM = np.random.default_rng(seed).normal(size=shape)
+    IM = np.random.default_rng(seed).normal(size=shape) + 3
     f = lambda th: c + 0 * th
     with Capture(_C) as cap:
         out = _C.circularize(IM, f, ref_angle=ref)
-    e = np.abs(out - IM).max() / np.abs(IM).max()
-    if not e <= 1e-9:
-        fails.append(('circularize:const', 'shape %r constant correction %r ref_angle %r: image changed by %.3g (relative)'
-                      % (shape, c, ref, e)))
     I, J = np.indices(shape)
-    if cap.coords is None or cap.coords.shape != (2,) + tuple(shape) or \
-            not (np.abs(cap.coords[0] - I).max() <= 1e-9 and np.abs(cap.coords[1] - J).max() <= 1e-9):
+    map_ok = (cap.coords is not None and cap.coords.shape == (2,) + tuple(shape)
+              and np.abs(cap.coords[0] - I).max() <= 1e-9 and np.abs(cap.coords[1] - J).max() <= 1e-9)
+    changed = np.abs(out - IM) > 1e-9 * np.abs(IM).max()
+    e = np.abs(out - IM).max() / np.abs(IM).max()
+    e_int = e
+    if changed.any():
+        border = np.ones(shape, dtype=bool)
+        border[1:-1, 1:-1] = False
+        if map_ok and not changed[~border].any() and np.all(out[changed] == 0):
+            fails.append(('circularize:const:border-zeroed',
+                          'shape %r constant correction %r ref_angle %r: %d pixels of the outermost rows/columns are returned as 0 '
+                          '(interior unchanged, sampling positions equal to the pixel positions to 1e-9)'
+                          % (shape, c, ref, int(changed.sum()))))
+            e_int = np.abs(out - IM)[~border].max() / np.abs(IM).max() if (~border).any() else 0.0
+        else:
+            fails.append(('circularize:const', 'shape %r constant correction %r ref_angle %r: image changed by %.3g (relative)'
+                          % (shape, c, ref, e)))
+    if not map_ok:
         fails.append(('circularize:const-map', 'shape %r constant correction %r ref_angle %r: pixels are not read at their own position'
                       % (shape, c, ref)))
-    return fails, {'circularize:const': e / 1e-9}
+    return fails, {'circularize:const': e_int / 1e-9}
 
 
-CIRC_IMAGE_TOL = 3e-4     # unchanged tree: <= 1e-4 (lsq fit noise ~1e-5 in the scale factor), see notes
+CIRC_IMAGE_TOL = 1e-4     # unchanged tree: <= 3e-5 (lsq fit noise ~1e-5 in the scale factor), see notes
 
 
 def cl_circ_image(n, c, s, method, ref):
-    """an already circular image (a ring vanishing before the border) is returned (nearly) unchanged"""
+    """an already circular image (a ring vanishing before the border) is returned (nearly) unchanged.
+    method 'argmax' locates the ring only to the nearest radial grid point (documented in PyAbel), so for it the
+    ring radius is moved onto a point of the radial grid (step = rmax / ceil(rmax / dr))."""
     J, I = np.meshgrid(np.arange(n), np.arange(n))
-    IM = np.exp(-(np.hypot(J - n // 2, n // 2 - I) - c)**2 / (2 * s * s))
+    rad = np.hypot(J - n // 2, n // 2 - I)
+    if method == 'argmax':
+        step = rad.max() / np.ceil(rad.max() / 0.5)
+        c = round(c / step) * step
+    IM = np.exp(-(rad - c)**2 / (2 * s * s))
     out = _C.circularize_image(IM, method=method, dr=0.5, dt=0.5, ref_angle=ref)
     e = np.abs(out - IM).max() / IM.max()
     fails = []
@@ -481,26 +503,26 @@ def search(ctx, rng, mult):
     # round trips, angle convention
     pts = [[0.0, 1.0], [1.0, 0.0], [-1.0, 0.0], [0.0, -1.0], [0.0, 0.0], [3.0, 4.0], [-3.0, 4.0], [-3.0, -4.0], [3.0, -4.0],
            [1e-8, -1.0], [-1e-8, -1.0], [1e6, 1e-6]]
-    for _ in range((30 if q else 300) * mult):
+    for _ in range((60 if q else 900) * mult):
         sc = 10.0 ** rng.integers(-3, 4)
         pts.append([float(rng.normal() * sc), float(rng.normal() * sc)])
     for x, y in pts:
         S.run('roundtrip', (np.sign(x), np.sign(y)), x=x, y=y)
-    for i in range((30 if q else 300) * mult):
+    for i in range((60 if q else 900) * mult):
         t = float(rng.uniform(-np.pi, np.pi)) if i > 6 else [np.pi, -np.pi / 2, np.pi / 2, 0.0, 3.0, -3.0, 1e-9][i]
         r = float(10.0 ** rng.uniform(-3, 3))
         S.run('roundtrip_inv', (int(np.floor(t / (np.pi / 2))),), r=r, t=t)
     S.run('angle', ('all',), pts=pts)
     # index_coords
     shapes_small = [(n, m) for n in range(1, 10) for m in range(1, 10)]
-    for it in range((60 if q else 400) * mult):
+    for it in range((120 if q else 1200) * mult):
         sh = shapes_small[int(rng.integers(len(shapes_small)))] if it % 5 else (int(rng.integers(10, 60)), int(rng.integers(10, 60)))
         org, oc = rand_origin(rng, sh)
         S.run('index_coords', (oc, sh[0] % 2, sh[1] % 2), shape=list(sh), origin=org)
     # reprojection positions and values; relations between the kinds
     DRS = [1, 0.5, 2, 0.75]
     DTS = [None, None, 0.5, 0.3, 1.0]
-    for it in range((50 if q else 400) * mult):
+    for it in range((100 if q else 1200) * mult):
         sh = shapes_small[int(rng.integers(len(shapes_small)))] if it % 4 else (int(rng.integers(10, 40)), int(rng.integers(10, 40)))
         org, oc = rand_origin(rng, sh)
         dr = DRS[int(rng.integers(len(DRS)))]
@@ -509,14 +531,14 @@ def search(ctx, rng, mult):
         S.run('reproject', (oc, dr, dt is None, sh[0] % 2, sh[1] % 2), shape=list(sh), origin=org, dr=dr, dt=dt, seed=seed)
         if min(sh) >= 2:
             S.run('kinds', (oc, dr, dt is None, sh[0] % 2, sh[1] % 2), shape=list(sh), origin=org, dr=dr, dt=dt, seed=seed)
-    for it in range((6 if q else 40) * mult):
+    for it in range((12 if q else 120) * mult):
         sh = (int(rng.integers(61, 100)), int(rng.integers(61, 100)))
         org, oc = rand_origin(rng, sh, big=True)
         S.run('reproject_linear', (oc,), shape=list(sh), origin=org, dr=DRS[it % 3],
               a=round(float(rng.normal()), 3), b=round(float(rng.normal()), 3), c=round(float(rng.normal()), 3))
     # isotropic images
     sizes = [51, 61, 71, 81, 101, 121, 151, 201]
-    for it in range((16 if q else 120) * mult):
+    for it in range((32 if q else 360) * mult):
         n = sizes[int(rng.integers(len(sizes)))]
         m = n + int(rng.choice([0, 0, 10, -10, 1]))
         org, oc = rand_origin(rng, (n, m), big=True)
@@ -524,7 +546,7 @@ def search(ctx, rng, mult):
         rin = min(o0, o1, n - 1 - o0, m - 1 - o1)
         S.run('isotropic', (oc, n, DRS[it % 3]), shape=[n, m], origin=org, dr=DRS[it % 3], prof=rand_profile(rng, rin))
     # toPES
-    for it in range((40 if q else 300) * mult):
+    for it in range((80 if q else 900) * mult):
         smooth = bool(it % 2)
         if smooth:
             n = int(rng.integers(150, 400))
@@ -544,13 +566,14 @@ def search(ctx, rng, mult):
         zoom = 1 if rng.random() < 0.5 else float(rng.choice([2.0, 0.5, 1.5]))
         S.run('topes', (per, hv is None, Vrep is None, zoom == 1, smooth), radial=[float(v) for v in r],
               intensity=[float(v) for v in inten], c=c, per_energy=per, hv=hv, Vrep=Vrep, zoom=zoom, smooth=smooth)
-    # circularize
-    for it in range((24 if q else 150) * mult):
+    # circularize (the first case is fixed: it exercises the recorded border finding on every run)
+    S.run('circ_const', (0.9, True, 1, 1, 'fixed'), shape=[7, 13], seed=0, c=0.9, ref=None)
+    for it in range((48 if q else 450) * mult):
         sh = (int(rng.integers(2, 40)), int(rng.integers(2, 40)))
         c = float(rng.choice([0.5, 1.0, 1.7, 2.0, 0.9, -2.0]))
         ref = None if rng.random() < 0.4 else float(rng.uniform(-np.pi, np.pi))
         S.run('circ_const', (c, ref is None, sh[0] % 2, sh[1] % 2), shape=list(sh), seed=int(rng.integers(1 << 30)), c=c, ref=ref)
-    for it in range((6 if q else 40) * mult):
+    for it in range((12 if q else 120) * mult):
         n = int(rng.choice([51, 71, 101, 151]))
         rin = n // 2
         s = max(2.5, float(rng.uniform(0.05, 0.09)) * rin)
@@ -897,7 +920,7 @@ def run(ctx):
         samples=S.samples, exhaustive=False,
         input_distribution=dict(coordinate_tie=tc['dist'], interval_goals=ti['dist'],
                                 search={c: sum(1 for d in S.distinct if d[0] == c) for c in sorted({d[0] for d in S.distinct})}),
-        worst_error_over_tolerance={k: round(v, 4) for k, v in sorted(S.margin.items())},
+        worst_error_over_tolerance={k: float('%.3g' % v) for k, v in sorted(S.margin.items())},
     )
     ctx.notes += [
         'DECISION on the angular grid (DESIGN F23): reproject_image_into_polar builds theta_i = linspace(theta.min(), theta.max(), nt, '
@@ -907,11 +930,11 @@ def run(ctx):
         'weight; 1.5e-4 at 101 px off-centre).  This is treated as a discretisation tolerance, not as a defect: it is O(1/size), '
         'vanishes with the image size like the interpolation and Riemann-sum errors, and the property sets no tolerance for the '
         'clauses that are not "exactly".  Sweep tolerances: 2D kinds 1.5 delta/2pi + 2e-3, 3D kinds 0.5 delta^2 + 2e-3 (delta '
-        'computed from the actual image and origin), totals + 3e-3 for the radial quadrature; a lost Jacobian factor (r, 2 pi, '
+        'computed from the actual image and origin), totals + 3e-3 max(1, dr)^2 for the radial quadrature; a lost Jacobian factor (r, 2 pi, '
         'pi, sin, 1/4) changes the result by >= 20 percent.  worst_error_over_tolerance records the margin of this run.',
         'total intensity is computed as sum(int2D) * (r[1] - r[0]): the radial grid step is (rmax - rmin)/ceil((rmax - rmin)/dr) <= dr',
         'circularize_image of a circular image: rings vanishing before the border (pixels whose sampling position falls 1e-15 outside '
-        'the image are returned as 0 by map_coordinates); tolerance 3e-4 relative (unchanged tree <= 1e-4: lsq scale-factor noise ~1e-5)',
+        'the image are returned as 0 by map_coordinates); tolerance 1e-4 relative (unchanged tree <= 3e-5: lsq scale-factor noise ~1e-5)',
         'toPES: c < 0 flips the sign of dE/dr; the theorem states PES dE/dr = I (kinetic) / -I (binding, axis sorted ascending) for '
         'c <> 0 and the |dE/dr| form for c > 0; toPES is always called with intensity.copy() (in-place division reported under C18)',
         'wall: ties %.0fs' % (time.time() - t0),
@@ -937,8 +960,8 @@ def run(ctx):
         if h.key in seen:
             continue
         seen.add(h.key)
-        if ctx.report_hit(h):
-            new += 1
+        if ctx.report_hit(h) and h.key != BORDER_KEY:
+            new += 1        # the recorded border finding does not explain a broken proof / tie
     if new == 0:
         if translator_error:
             ctx.report_broken('translator', 'tools/translate/formulas_polar.py', translator_error)
